@@ -30,11 +30,9 @@ Print Assumptions C16_tokens_only_after_approval.
 
 (* ... and only to the client that started the flow: the tokens belong to the
    client the poll claims to be, the device code was issued to that same client,
-   and the poll proves that identity (a public client by naming itself, any
-   other client by its registered secret). Clients are registered consistently
-   (client_ok: non-empty id, application type web <-> basic/post secret). *)
-Theorem C16_only_to_initiator : forall g cl tr st,
-  forallb client_ok cl = true -> reach g cl tr st ->
+   and the poll proves that identity (a client registered with auth method none
+   by naming itself, any other client by its registered secret). *)
+Theorem C16_only_to_initiator : forall g cl tr st, reach g cl tr st ->
   forall r cr dc now f sub client scopes idsub rf,
   poll cl st r cr dc now f = RTokens sub client scopes idsub rf ->
   client = claimed cr /\
@@ -44,7 +42,7 @@ Proof. exact only_to_initiator. Qed.
 Print Assumptions C16_only_to_initiator.
 
 (* The answers to a poll by a registered device client c presenting itself
-   canonically (public: bare client_id; confidential: HTTP Basic), on either
+   canonically (public: bare client_id; with a secret: HTTP Basic), on either
    router: slow_down on a storage time-out; refused (access_denied) for a code
    that was never issued or only to other clients; and for the authorization d
    the storage holds under the code for c: access_denied after denial, tokens
